@@ -391,8 +391,8 @@ def stmt_lines(s, st=PLAIN, indent="\t"):
 def implicit_ok_text(first):
     """may an implicit word list start with this text? (see DESIGN 3.3: a line must not start with
     something that continues the previous expression)"""
-    c = first[:1]
-    return c.isdigit() or (c == "<") or c in "'\""
+    # a leading '<' or quote would be taken as another chunk of a preceding string directive, a leading '^' as xor
+    return first[:1].isdigit()
 
 
 COMMENT_WORDS = ["note", "r0 = counter", "mov r1, r2", "x: .word 5", "todo (fix)", ".end", "a = b", "\"quoted\"", "50% done"]
